@@ -1,6 +1,7 @@
 import Lean.Data.Json
 import VsbModel.Model.Split
 import VsbModel.Model.ChunkedHash
+import VsbModel.Model.Sync
 
 /-!
 Line-protocol driver for the executable models: one request per line `<op> <json>`, one JSON
@@ -101,11 +102,38 @@ def opChash (j : Json) : Except String Json := do
   | some blocks => pure (Json.mkObj [("blocks", Json.arr (blocks.map natsJson).toArray), ("consumed", consumed)])
   | none => pure (Json.mkObj [("error", "WriteZero"), ("consumed", consumed)])
 
+/-! ## sync -/
+def parseGroups (j : Json) : Except String (List (Nat × List Nat)) := do
+  (← j.getArr?).toList.mapM (fun g => do
+    let a ← g.getArr?
+    match a.toList with
+    | [n, bs] => pure ((← n.getNat?), (← natList bs))
+    | _ => throw "group")
+
+open Vsb.Sync in
+def actStr : Act → String
+  | .createGroup g => s!"c:{g}"
+  | .upload g b => s!"u:{g}:{b}"
+  | .delete g => s!"d:{g}"
+
+open Vsb.Sync in
+def opSync (j : Json) : Except String Json := do
+  let loc ← parseGroups (← j.getObjVal? "local")
+  let cloud ← parseGroups (← j.getObjVal? "cloud")
+  let ok ← (← j.getObjVal? "ok").getBool?
+  let max ← (← j.getObjVal? "max").getNat?
+  let fails ← (← (← j.getObjVal? "fails").getArr?).toList.mapM (fun x => x.getStr?)
+  let (acts, ok') := syncBackups loc cloud ok max (fun a => fails.contains (actStr a))
+  let tgt := targetGroups loc cloud max
+  pure (Json.mkObj [("acts", Json.arr (acts.map (fun a => Json.str (actStr a))).toArray), ("ok", ok'),
+    ("target", Json.arr (tgt.map (fun e => Json.arr #[(e.1 : Json), natsJson e.2])).toArray)])
+
 def dispatch (op : String) (j : Json) : Except String Json :=
   match op with
   | "split" => opSplit j
   | "streamread" => opStreamRead j
   | "chash" => opChash j
+  | "sync" => opSync j
   | _ => .error s!"unknown op {op}"
 
 def handle (line : String) : String :=
